@@ -49,6 +49,14 @@ static void vhAlarm(int) {
 
 namespace vh {
 
+// storage for an instance: exact size (ASan red zones abut), aligned as the type demands (over-aligned payloads)
+static inline void* vhAlloc(size_t n) {
+	void* p = nullptr;
+	const size_t al = alignof(Instance) > sizeof(void*) ? alignof(Instance) : sizeof(void*);
+	if (posix_memalign(&p, al, n) != 0) abort();
+	return p;
+}
+
 #ifdef HFSM2_ENABLE_LOG_INTERFACE
 struct VLogger : FSM::Logger {
 	Probe* p = nullptr;
@@ -214,7 +222,7 @@ struct Driver {
 	void construct(Inst& in, long step) {
 		in.probe.step = (uint64_t)step;
 		const size_t slack = (size_t)addrOffset * alignof(Instance);
-		in.mem = malloc(sizeof(Instance) + slack);
+		in.mem = vhAlloc(sizeof(Instance) + slack);
 		if (fillByte >= 0 && fillByte < 256) memset(in.mem, fillByte, sizeof(Instance) + slack);
 		else if (fillByte >= 256) { uint64_t z = 0x1234u + (uint64_t)fillByte; unsigned char* b = (unsigned char*)in.mem; for (size_t i = 0; i < sizeof(Instance) + slack; ++i) { z = mix(z); b[i] = (unsigned char)z; } }
 		opBegin(in, OP_CONSTRUCT, VH_MANUAL);
